@@ -452,6 +452,17 @@ def verdict_script(text):
     return ("valid", None)
 
 
+def verdict_script_req(text):
+    return ("invalid", " <-- required") if not text else verdict_script(text)
+
+
+def verdict_script_inc(text):
+    return ("incomplete", None) if not text else verdict_script(text)
+
+
+VERDICTS = {"script": verdict_script, "scriptreq": verdict_script_req, "scriptinc": verdict_script_inc}
+
+
 def verdict_brackets(text):
     """rustyline::validate::MatchingBracketValidator as documented: balanced -> Valid, open left -> Incomplete,
     mismatch -> Invalid with a message"""
@@ -478,6 +489,11 @@ def gen_c13(rng, mode):
     nreads = rng.choice([1, 1, 2, 3])
     for r in range(nreads):
         steps = rng.randint(2, 12)
+        if rng.random() < 0.3:
+            # Enter on the EMPTY text (the first key of the read, or after the text was deleted again)
+            if rng.random() < 0.4:
+                cmds += [Cmd(["a"], "ins", c=0x61, n=1), Cmd(["Backspace"], "bs")]
+            cmds.append(Cmd([rng.choice(["Enter", "C-j", "C-m"])], "enter"))
         for _ in range(steps):
             x = rng.random()
             if x < 0.55:
@@ -503,7 +519,7 @@ def c13_oracle_cases(tier, seed):
     for _ in range(n):
         mode = rng.choice(["emacs", "emacs", "vi"])
         cmds = gen_c13(rng, mode)
-        vk = rng.choice(["script", "script", "brackets"])
+        vk = rng.choice(["script", "script", "brackets", "scriptreq", "scriptinc"])
         cases.append(script_case(cmds, mode=mode, validator=vk, reads=40, timeout=0 if mode == "vi" else rng.choice(["none", 0]),
                                  prompt=rng.choice(["> ", ""]), cols=rng.choice([80, 80, 20]),
                                  hints=["ok then"] if rng.random() < 0.15 else None))
@@ -520,7 +536,7 @@ def eval_c13(res, traces, stream):
     for t in traces:
         if not t.ok:
             continue
-        vfun = verdict_script if t.case.validator == "script" else verdict_brackets
+        vfun = VERDICTS.get(t.case.validator, verdict_brackets)
         read_idx = 0
         for i, (cmd, (text, pos), after, ob) in enumerate(t.steps):
             if after[0] in ("line", "end"):
@@ -1179,6 +1195,34 @@ def nearest(hist, term, start, direction):
     return None
 
 
+SEARCH_PROMPT = re.compile(r"\((failed )?reverse-i-search\)`(.*?)': ", re.S)
+
+
+def search_prompts(written):
+    """the search prompts in the bytes written during a read, in order: [(reported success, search text)] -- the only place
+    where the search reports success or failure"""
+    return [(m.group(1) is None, [ord(c) for c in m.group(2)]) for m in SEARCH_PROMPT.finditer("".join(chr(c) for c in written))]
+
+
+def compare_search_prompts(res, out, stream):
+    """the sequence of search prompts written by the implementation and by the model (the rest of the output: C02)"""
+    n = 0
+    for c, impl, model, raw in out:
+        if model is None or len(impl) != len(model) or c.meta.get("events") or c.meta.get("no_model"):
+            continue
+        for a, b in zip(impl, model):
+            if a.startswith("O=hangup") or b.startswith("O=hangup"):
+                continue
+            pa, pb = search_prompts(parse_read(a)[2]), search_prompts(parse_read(b)[2])
+            n += len(pa)
+            if pa != pb:
+                res.disagreements.append({"stream": stream + "-prompts", "case": c.model_line(p_tty.chunks_of(c.keys)), "keys": c.keys,
+                                          "impl": " ".join("%s`%s'" % ("ok" if ok else "FAILED", enc(t)) for ok, t in pa),
+                                          "model": " ".join("%s`%s'" % ("ok" if ok else "FAILED", enc(t)) for ok, t in pb)})
+                break
+    return n
+
+
 def eval_c08(res, traces, segs, ws, stream):
     stats = {}
     for t in traces:
@@ -1186,6 +1230,9 @@ def eval_c08(res, traces, segs, ws, stream):
             continue
         hist = [[ord(ch) for ch in h] for h in t.case.history]
         term, idx, d, backup = [], 0, "r", None
+        # what the search REPORTS: the prompts written, one per key read inside a search (the first when it starts)
+        shown = [p for (o, obs, w) in t.reads for p in search_prompts(w)]
+        nshown, success = 0, True
         for i, (cmd, (text, pos), after, ob) in enumerate(t.steps):
             if after[0] != "state":
                 break
@@ -1226,6 +1273,26 @@ def eval_c08(res, traces, segs, ws, stream):
                 idx = hit[0]
                 exp = (hist[idx], hit[1])
                 stats["hits"] = stats.get("hits", 0) + 1
+            if tag == "s_start":
+                success = True
+            elif tag in ("s_char", "s_again_r", "s_again_f"):
+                success = hit is not None
+            if tag in ("s_start", "s_char", "s_again_r", "s_again_f", "s_bs") and hist:
+                # the report that follows this key
+                if nshown >= len(shown):
+                    fail_case(res, stream, t, "search key %d %r: no search prompt was written" % (i, cmd))
+                    break
+                ok, said = shown[nshown]
+                nshown += 1
+                stats["reports_ok" if ok else "reports_failed"] = stats.get("reports_ok" if ok else "reports_failed", 0) + 1
+                if said != term or ok != success:
+                    fail_case(res, stream, t, "search key %d %r: the search reports %s for '%s', the reference %s for '%s'" % (
+                        i, cmd, "success" if ok else "failure", enc(said), "success" if success else "failure", enc(term)))
+                    break
+                if ok and term and (find_cp(term, text2) is None or text2 not in hist):
+                    fail_case(res, stream, t, "search key %d %r: success is reported for '%s' but the line shown (%s) %s" % (
+                        i, cmd, enc(term), enc(text2), "does not contain it" if text2 in hist else "is not a history entry"))
+                    break
             res.nontrivial.add((tag, enc(text), enc(term), idx))
             if (text2, pos2) != exp:
                 fail_case(res, stream, t, "search key %d %r (text '%s', position %d, %s): expected (%s,%d), shown (%s,%s)" % (
@@ -1236,9 +1303,12 @@ def eval_c08(res, traces, segs, ws, stream):
 
 def c08_corr(res, exe, driver, tier, seed, tmp):
     cases = p_tty.c08_cases(tier, seed)
-    run_tty_cases(res, exe, driver, cases, tmp, "isearch", compare_output=False, rng=random.Random(seed), typeahead=0.3)
+    out0 = run_tty_cases(res, exe, driver, cases, tmp, "isearch", compare_output=False, rng=random.Random(seed), typeahead=0.3)
+    nprompts = compare_search_prompts(res, out0, "isearch")
     ocases = c08_oracle_cases(tier, seed)
     out, traces = run_spec_stream(res, exe, driver, ocases, tmp, "isearch-spec", seed)
+    nprompts += compare_search_prompts(res, out, "isearch-spec")
+    res.extra["search_prompts_compared"] = nprompts
     segs = Segs(exe, tmp)
     collect_segs(segs, traces)
     stats = eval_c08(res, traces, segs, WordSpec(ud_tables()), "isearch-spec")
@@ -1249,7 +1319,10 @@ def c08_corr(res, exe, driver, tier, seed, tmp):
                 "afterwards; compared with the extracted model. isearch-spec: a reference search written here (nearest entry from "
                 "the current position, inclusive, containing the text; first occurrence = cursor; repeat = one further; Backspace "
                 "does not search; C-g = line and cursor from before; a motion ends the search and acts on the shown entry) "
-                "predicts the line and cursor after every key pressed during a search.")
+                "predicts the line and cursor after every key pressed during a search, and what the search REPORTS (the "
+                "`(reverse-i-search)` / `(failed reverse-i-search)` prompt and the text in it, read from the bytes written): a "
+                "reported success must show a stored entry containing the text. The sequence of search prompts is also compared "
+                "with the model's in both streams.")
     for c, impl, model, raw in out[:3]:
         res.samples.append({"keys": c.keys, "impl": " ## ".join(impl)[:400]})
 
@@ -2033,7 +2106,10 @@ def gen_c19(rng, mode):
             elif r < 0.8:
                 cmds.append(Cmd([rng.choice(["Left", "Right", "Home", "End"])], "motion"))
             elif r < 0.88:
-                cmds.append(Cmd([rng.choice(["Backspace", "C-u", "C-w"])], "edit"))
+                # kills, yanks, yank-pop and undo mean something only as the successor of the previous command: a message shown
+                # in between is not a command
+                cmds.append(Cmd([rng.choice(["Backspace", "C-u", "C-w"] + (["C-w", "C-k", "M-d", "C-y", "M-y", "C-_", "M-Backspace"]
+                                                                          if mode == "emacs" else []))], "edit"))
             elif r < 0.92:
                 # suspend (signals option off: the key reaches the keymap; the terminal is restored, the process signals
                 # itself -- ignored here -- and raw mode is entered again): messages after it are still the editor's to show
@@ -2081,6 +2157,26 @@ def c19_cases(tier, seed):
                         initial=p_tty.mk_initial(rng, 0.2, ["a", "b", " ", "é"]))
         c.meta["printers"] = nthreads
         c.meta["prints"] = prints
+        cases.append(c)
+    # a message between two commands that belong together (kill + kill, yank + yank-pop, insert + insert then undo), and a
+    # message while a hint is showing: the message is not a command, and the repaint below it shows the hint again
+    pairs = [(["a", "b", "c", " ", "d", "e", "f"], ["C-w"], ["C-w", "C-y"]), (["x", "y", " ", "z"], ["C-a", "C-k"], ["C-y", "C-y"]),
+             (["k", "1", " ", "k", "2"], ["C-w", "C-w", "C-y"], ["M-y"]), (["a", " ", "b"], ["M-Backspace"], ["M-Backspace", "C-y"]),
+             (["a", "b"], ["c"], ["d", "C-_"]), (["h", "e"], ["l"], ["Right"]), (["h", "e", "l"], [], ["End", "!"]),
+             (["a", " ", "b", " ", "c"], ["C-a", "M-d"], ["M-d", "C-e", "C-y"])]
+    for i in range(max(len(pairs), n // 12)):
+        pre, a, b = pairs[i % len(pairs)]
+        keys = pre + a
+        cmds = [Cmd([k], "ins" if len(k) == 1 else "edit", **({"c": ord(k), "n": 1} if len(k) == 1 else {})) for k in keys]
+        at = len(cmds)
+        cmds += [Cmd([k], "ins" if len(k) == 1 else "edit", **({"c": ord(k), "n": 1} if len(k) == 1 else {})) for k in b]
+        cmds += [Cmd(["F12"], "noop"), Cmd(["Enter"], "enter")]
+        chunks = [b"".join(p_tty.key_bytes(k) for k in cmd.keys) for cmd in cmds]
+        text = "<0:0:%s>" % rng.choice(["msg", "two\nlines", "日本"]) + ("\n" if i % 3 == 0 else "")
+        c = script_case(cmds, mode="emacs", chunks=chunks, cols=rng.choice([80, 20]), prompt="> ", timeout="none", reads=1,
+                        hints=["hello there"] if pre[0] == "h" else None)
+        c.meta["printers"] = 1
+        c.meta["prints"] = {at: [(0, text)]}
         cases.append(c)
     # printer lifetimes: a printer is created and dropped before the first read, which runs with no printer alive; the
     # session's printers are created only after it and print during the second read
